@@ -10,7 +10,8 @@
 //           LEAK   allocated-bytes accounting differs after the operation AND LeakSanitizer confirms; <detail> =
 //                  "[after-return] <digest>" or "[after-exception] <what>", then " || " and the LeakSanitizer report
 //           CRASH  the child died from a signal / unexpected exit code without a sanitizer report
-//           HANG   CPU-time limit (--timeout-ms of CPU time, RLIMIT_CPU) or 8x that in wall-clock time exceeded (child killed)
+//           HANG   CPU-time limit (--timeout-ms of CPU time, RLIMIT_CPU) or 8x that in wall-clock time without a progress
+//                  message exceeded (child killed)
 //           MEM    resident-set limit exceeded (child killed)
 // Options: --timeout-ms N (default 10000)  --rss-mb N (default 2048)  --nofork (debugging: run in-process)
 //
@@ -516,6 +517,14 @@ static int run_line(const std::string& line) {
   return rc;
 }
 
+// grants the calling (child) process `timeout_ms` of CPU time from now on
+static void cpu_budget(long timeout_ms) {
+  struct rusage ru; getrusage(RUSAGE_SELF, &ru);
+  struct rlimit rl; rl.rlim_max = RLIM_INFINITY;
+  rl.rlim_cur = (rlim_t)(ru.ru_utime.tv_sec + ru.ru_stime.tv_sec + 2 + std::max(1L, (timeout_ms + 999) / 1000));
+  setrlimit(RLIMIT_CPU, &rl);
+}
+
 static double now_ms() { struct timeval tv; gettimeofday(&tv, nullptr); return tv.tv_sec * 1000.0 + tv.tv_usec / 1000.0; }
 
 static long rss_mb(pid_t pid) {
@@ -525,10 +534,15 @@ static long rss_mb(pid_t pid) {
   return res * (sysconf(_SC_PAGESIZE) / 1024) / 1024;
 }
 
-static std::string flat(const std::string& s, size_t lim) {
-  std::string r; r.reserve(std::min(s.size(), lim));
-  for (char c : s) { if (r.size() >= lim) { r += " ...[truncated]"; break; } if (c == '\n') r += " | "; else if (c == '\r' || c == '\t') r += ' '; else r += c; }
+static std::string flat1(const std::string& s) {
+  std::string r; r.reserve(s.size() + s.size() / 16);
+  for (char c : s) { if (c == '\n') r += " | "; else if (c == '\r' || c == '\t') r += ' '; else r += c; }
   return r;
+}
+// one line; when the text is longer than lim its head and its tail are kept (the last report is the fatal one)
+static std::string flat(const std::string& s, size_t lim) {
+  if (s.size() <= lim) return flat1(s);
+  return flat1(s.substr(0, lim / 2)) + " ...[cut]... " + flat1(s.substr(s.size() - lim / 2));
 }
 
 struct Verdict { std::string status, ent, detail; long ms = 0; };
@@ -549,35 +563,40 @@ template <typename F> static Verdict supervise(const std::string& line, long tim
     g_announce_fd = po[1];
     struct rlimit rl; rl.rlim_cur = rl.rlim_max = 0; setrlimit(RLIMIT_CORE, &rl);
     // hang detection is by CPU time (robust against a loaded machine): SIGXCPU after timeout_ms of CPU, SIGKILL 2 s later
-    rl.rlim_cur = (rlim_t)std::max(1L, (timeout_ms + 999) / 1000); rl.rlim_max = rl.rlim_cur + 2; setrlimit(RLIMIT_CPU, &rl);
+    // (the hard limit stays open so that cx_newfail.cpp can grant every injected run its own budget, see cpu_budget())
+    rl.rlim_cur = (rlim_t)std::max(1L, (timeout_ms + 999) / 1000); rl.rlim_max = RLIM_INFINITY; setrlimit(RLIMIT_CPU, &rl);
     int code = body(po[1]);
     close(po[1]);
     _exit(code);
   }
   close(po[1]); close(pe[1]);
   std::string so, se; bool eo = false, ee = false; const char* killed = nullptr;
-  long peak = 0; double next_rss = t0 + 5;
+  long peak = 0; double next_rss = t0 + 5, last_progress = t0;
   while (!(eo && ee)) {
     struct pollfd fds[2] = {{po[0], POLLIN, 0}, {pe[0], POLLIN, 0}};
     int pr = poll(fds, 2, 10);
     char buf[8192];
     if (pr > 0) {
-      if (!eo && (fds[0].revents & (POLLIN | POLLHUP))) { ssize_t n = read(po[0], buf, sizeof buf); if (n <= 0) eo = true; else if (so.size() < (1u << 20)) so.append(buf, (size_t)n); }
+      if (!eo && (fds[0].revents & (POLLIN | POLLHUP))) { ssize_t n = read(po[0], buf, sizeof buf); if (n <= 0) eo = true; else { last_progress = now_ms(); so.append(buf, (size_t)n); if (so.size() > (8u << 20)) { size_t cut = so.find('\n', so.size() - (1u << 20)); if (cut != std::string::npos) so.erase(0, cut + 1); } } }
       if (!ee && (fds[1].revents & (POLLIN | POLLHUP))) { ssize_t n = read(pe[0], buf, sizeof buf); if (n <= 0) ee = true; else if (se.size() < (1u << 20)) se.append(buf, (size_t)n); }
     }
     double now = now_ms();
     if (!killed && now >= next_rss) { long r = rss_mb(pid); if (r > peak) peak = r; next_rss = now + 20; if (r > rss_lim) { killed = "MEM"; kill(pid, SIGKILL); } }
-    if (!killed && now - t0 > 8.0 * timeout_ms) { killed = "HANG"; kill(pid, SIGKILL); }   // wall-clock backstop (blocked child)
+    if (!killed && now - last_progress > 8.0 * timeout_ms) { killed = "HANG"; kill(pid, SIGKILL); }   // wall-clock backstop (blocked child), counted from the last progress message
   }
   close(po[0]); close(pe[0]);
   int st = 0; waitpid(pid, &st, 0);
   v.ms = (long)(now_ms() - t0);
   // child output: zero or more "@entry\n" / "#progress\n" announcements followed by the result text
-  std::string ent = "?", det = so, progress;
-  while (!det.empty() && (det[0] == '@' || det[0] == '#')) {
-    size_t nl = det.find('\n'); if (nl == std::string::npos) break;
-    if (det[0] == '@') ent = det.substr(1, nl - 1); else progress = det.substr(1, nl - 1);
-    det = det.substr(nl + 1);
+  std::string ent = "?", det, progress;
+  {
+    size_t pos = 0;
+    while (pos < so.size() && (so[pos] == '@' || so[pos] == '#')) {
+      size_t nl = so.find('\n', pos); if (nl == std::string::npos) break;
+      if (so[pos] == '@') ent = so.substr(pos + 1, nl - pos - 1); else progress = so.substr(pos + 1, nl - pos - 1);
+      pos = nl + 1;
+    }
+    det = so.substr(pos);
   }
   if (ent == "?" || ent.empty()) { Toks t(line); ent = t.more() ? "cmd." + t.next() : "?"; }   // died while parsing: use the command word
   if (!progress.empty()) progress = "[" + progress + "] ";
@@ -594,12 +613,14 @@ template <typename F> static Verdict supervise(const std::string& line, long tim
   return v;
 }
 
-static void warm_up() {
-  // lazily initialised runtime state (locale caches, iostream) is created before accounting starts
-  run_line("B64 1 0 1 0 3 0 1 4 0 0 10 0 10 10 0 10 0 1 4 5 5 15 5 15 15 5 15");
-  run_line("MEASD 1 0.5 0.25 1 3 0 0 1.5 0 0 1.5");
-  run_line("XMISC");
-  run_line("MKP 3 1 2 3");
+// lazily initialised runtime state (locale caches, iostream) is created in the supervising process before accounting
+// starts.  The warm-up operations call the library: they are first run in a watched child, and are repeated in this
+// process only when that child survived -- a library defect must never take the supervisor down.
+static void warm_up(long timeout_ms, long rss_lim) {
+  static const char* lines[] = {"B64 1 0 1 0 3 0 1 4 0 0 10 0 10 10 0 10 0 1 4 5 5 15 5 15 15 5 15", "MEASD 1 0.5 0.25 1 3 0 0 1.5 0 0 1.5", "XMISC", "MKP 3 1 2 3"};
+  Verdict v = supervise("warm-up", timeout_ms, rss_lim, [&](int) -> int { for (const char* l : lines) run_line(l); return 0; });
+  if (v.status != "OK") return;
+  for (const char* l : lines) run_line(l);
 }
 
 #ifndef CX_FUZZAPI_NO_MAIN
@@ -612,7 +633,7 @@ int main(int argc, char** argv) {
     else if (a == "--nofork") nofork = true;
   }
   std::ios::sync_with_stdio(false);
-  warm_up();
+  warm_up(timeout_ms, rss_lim);
   std::string line;
   while (std::getline(std::cin, line)) {
     if (line.empty()) { std::cout << "OK empty 0 -\n"; continue; }
